@@ -15,10 +15,15 @@ use aranya_crypto::Csprng;
 use aranya_runtime::{
     storage::linear::testing::MemStorageProvider, Address, CmdId, Command, GraphId, MaxCut, PeerCache, Prior, Priority,
     SyncError, SyncIncoming, SyncHello, SyncRequester, SyncResponder, TraversalBuffer, TraversalBuffers,
+    MAX_SYNC_MESSAGE_SIZE, PEER_HEAD_MAX,
 };
 use serde::{Deserialize, Serialize};
 use std::time::Duration;
-use vh::{fnv, hex, unhex, Args, Recorder, Rng};
+use vh::{
+    fnv,
+    gk::{self, KCmd, MemProvider, Replica},
+    hex, unhex, Args, Recorder, Rng,
+};
 
 // ------------------------------------------------------------------ serde mirror of the wire types
 // (field and variant order as in sync/{wire,requester,responder}.rs; std Vec instead of
@@ -178,6 +183,62 @@ struct World {
     rq_accepted: u64,
     rs: SyncResponder,
     provider: MemStorageProvider,
+    /// graph world (`world` line): responder-side replica holding the whole graph, requester-side
+    /// replica holding a prefix of it
+    a: Option<Replica<MemProvider>>,
+    b: Option<Replica<MemProvider>>,
+    b_trx: Option<gk::Trx<MemProvider>>,
+    /// every address of the world graph
+    addrs: Vec<Address>,
+    resp_cache: PeerCache,
+    /// bytes written by the last successful poll/push (for piping into the other side)
+    last_out: Vec<u8>,
+    /// commands returned by the requester's last accepted response
+    last_cmds: Vec<KCmd>,
+    buf: Vec<u8>,
+}
+
+impl World {
+    fn new() -> Self {
+        World {
+            rq: SyncRequester::new_session_id(GraphId::default(), 0),
+            rq_session: 0,
+            rq_accepted: 0,
+            rs: SyncResponder::new(),
+            provider: MemStorageProvider::default(),
+            a: None,
+            b: None,
+            b_trx: None,
+            addrs: vec![],
+            resp_cache: PeerCache::new(),
+            last_out: vec![],
+            last_cmds: vec![],
+            buf: vec![0u8; MAX_SYNC_MESSAGE_SIZE],
+        }
+    }
+}
+
+/// The world graph for `(seed, nodes)`: check-free bodies (nothing is ever rejected).
+fn world_cmds(seed: u64, nodes: usize) -> Vec<KCmd> {
+    let mut rng = Rng::new(seed);
+    let p = gk::DagParams { max_nodes: nodes.max(2), check_pct: 0, finalize_pct: 3, ..Default::default() };
+    let mut d = gk::gen_dag(&mut rng, &p);
+    // gen_dag draws the size; grow it to exactly `nodes` with a chain on the last node
+    while d.nodes.len() < nodes {
+        let k = d.nodes.len() - 1;
+        d.nodes.push(gk::Node { parents: vec![k], prio: Priority::Basic(1), body: vec![] });
+    }
+    gk::realize(&d, seed)
+}
+
+fn build_replica(cmds: &[KCmd], graph: GraphId) -> Replica<MemProvider> {
+    let mut r = gk::mem_replica(graph);
+    if !cmds.is_empty() {
+        let mut trx = r.transaction();
+        r.add(&mut trx, cmds).expect("world graph: add_commands");
+        r.commit(trx).expect("world graph: commit");
+    }
+    r
 }
 
 fn graph_of(h: &str) -> GraphId {
@@ -262,14 +323,18 @@ fn check_commands(
 }
 
 fn run_case(rec: &mut Recorder, lines: &[String]) {
-    let mut w = World {
-        rq: SyncRequester::new_session_id(GraphId::default(), 0),
-        rq_session: 0,
-        rq_accepted: 0,
-        rs: SyncResponder::new(),
-        provider: MemStorageProvider::default(),
-    };
+    let mut w = World::new();
     for line in lines {
+        exec_line(&mut w, rec, line);
+    }
+}
+
+/// Execute one request line against the real code and record it with the real answer.  For
+/// `rs poll` / `rs push` the recorded request carries the one bit the model takes from storage
+/// (was a `SyncResponse` / a non-empty push produced), observed here.
+fn exec_line(w: &mut World, rec: &mut Recorder, line_in: &str) {
+    let line = &line_in.to_string();
+    {
         let t: Vec<&str> = line.split(' ').filter(|s| !s.is_empty()).collect();
         match t.as_slice() {
             ["decode", h] => {
@@ -300,6 +365,7 @@ fn run_case(rec: &mut Recorder, lines: &[String]) {
                 };
                 w.rq_session = sid;
                 w.rq_accepted = 0;
+                w.last_cmds.clear();
                 rec.line(line.clone(), "ok");
             }
             ["rq", op @ ("recv" | "push"), h] => {
@@ -320,6 +386,7 @@ fn run_case(rec: &mut Recorder, lines: &[String]) {
                 let rq = &mut w.rq;
                 let mut accepted = false;
                 let mut fails: Vec<String> = vec![];
+                let mut got: Vec<KCmd> = vec![];
                 let out = vh::catch(std::panic::AssertUnwindSafe(|| {
                     let res = if *op == "recv" {
                         rq.receive(&buf)
@@ -359,6 +426,13 @@ fn run_case(rec: &mut Recorder, lines: &[String]) {
                                     hex(c.bytes())
                                 ));
                                 parts.push((c.policy(), c.bytes()));
+                                got.push(KCmd {
+                                    id: c.id(),
+                                    parent: c.parent(),
+                                    prio: c.priority(),
+                                    policy: c.policy().map(|p| p.to_vec()),
+                                    data: c.bytes().to_vec(),
+                                });
                             }
                             let hdr = header.zip(mresp.as_ref());
                             let (f, unjudged) = check_commands(line, &buf, hdr, &parts, sess, acc);
@@ -389,6 +463,9 @@ fn run_case(rec: &mut Recorder, lines: &[String]) {
                 }
                 if accepted {
                     w.rq_accepted += 1;
+                }
+                if !got.is_empty() {
+                    w.last_cmds = got;
                 }
             }
             ["rq", "poll"] => {
@@ -435,22 +512,213 @@ fn run_case(rec: &mut Recorder, lines: &[String]) {
                 rec.line(line.clone(), s);
             }
             ["rs", "ready"] => rec.line(line.clone(), (w.rs.ready() as u8).to_string()),
-            ["rs", "poll"] => {
-                let mut target = vec![0u8; 4096];
-                let mut cache = PeerCache::new();
+            ["rs", "poll"] | ["rs", "poll", _] | ["rs", "push", _] => {
+                let is_push = t[1] == "push";
                 let mut tb = TraversalBuffers::new();
-                let (rs, provider) = (&mut w.rs, &mut w.provider);
-                let r = vh::catch(std::panic::AssertUnwindSafe(|| rs.poll(&mut target, provider, &mut cache, &mut tb)));
+                let rs = &mut w.rs;
+                let cache = &mut w.resp_cache;
+                let target = &mut w.buf;
+                let provider: &mut MemStorageProvider = match &mut w.a {
+                    Some(a) => a.client.provider(),
+                    None => &mut w.provider,
+                };
+                let r = vh::catch(std::panic::AssertUnwindSafe(|| {
+                    if is_push {
+                        rs.push(target, provider, &mut tb)
+                    } else {
+                        rs.poll(target, provider, cache, &mut tb)
+                    }
+                }));
+                let mut hint = false;
                 let s = match r {
                     Err(p) => {
-                        rec.panics.push(format!("SyncResponder::poll panicked ({p})"));
+                        rec.panics.push(format!("SyncResponder::{} panicked ({p})", t[1]));
                         "panic".to_string()
                     }
-                    Ok(Ok(n)) => format!("ok {}", hex(&target[..n])),
+                    Ok(Ok(n)) => {
+                        w.last_out = w.buf[..n].to_vec();
+                        if is_push {
+                            match postcard::take_from_bytes::<MSyncType>(&w.last_out) {
+                                _ if n == 0 => "ok empty".to_string(),
+                                Ok((MSyncType::Push { message: MResp::SyncResponse { session_id, response_index, commands }, .. }, _)) => {
+                                    hint = true;
+                                    if commands.is_empty() {
+                                        rec.oracle_fail(format!("`{line}`: push message without commands"));
+                                    }
+                                    format!("ok push {session_id} {response_index}")
+                                }
+                                _ => format!("ok {}", hex(&w.last_out)),
+                            }
+                        } else {
+                            match postcard::take_from_bytes::<MResp>(&w.last_out) {
+                                Ok((MResp::SyncResponse { session_id, response_index, commands }, _)) => {
+                                    hint = true;
+                                    if commands.is_empty() {
+                                        rec.oracle_fail(format!("`{line}`: SyncResponse without commands"));
+                                    }
+                                    format!("ok resp {session_id} {response_index}")
+                                }
+                                _ => format!("ok {}", hex(&w.last_out)),
+                            }
+                        }
+                    }
                     Ok(Err(e)) => show_err(&e),
                 };
-                rec.count(&format!("rs-poll:{}", if s.starts_with("ok") { "ok" } else { s.split(' ').last().unwrap_or("?") }));
+                // peer cache stays a subset of the graph, bounded
+                if w.resp_cache.heads().len() > PEER_HEAD_MAX {
+                    rec.oracle_fail(format!("`{line}`: peer cache holds {} heads", w.resp_cache.heads().len()));
+                }
+                for h in w.resp_cache.heads() {
+                    if !w.addrs.iter().any(|a| a.id == h.id && a.max_cut == h.max_cut) {
+                        rec.oracle_fail(format!("`{line}`: peer cache records {} which is not a command of the graph", show_addr(&h.address())));
+                    }
+                }
+                rec.count(&format!(
+                    "rs-{}:{}",
+                    t[1],
+                    if s.starts_with("ok") { s.split(' ').take(2).last().map(|x| if x.len() > 8 { "msg" } else { x }).unwrap_or("?") } else { s.split(' ').last().unwrap_or("?") }
+                ));
+                let req = if is_push {
+                    format!("rs push {}", hint as u8)
+                } else if hint {
+                    "rs poll 1".to_string()
+                } else {
+                    "rs poll".to_string()
+                };
+                rec.line(req, s);
+            }
+            ["world", "none"] => {
+                w.a = None;
+                w.b = None;
+                w.b_trx = None;
+                w.addrs.clear();
+                w.resp_cache = PeerCache::new();
+                rec.line(line.clone(), "ok");
+            }
+            ["world", seed, nodes, prefix, g] => {
+                let (seed, nodes, prefix): (u64, usize, usize) =
+                    (seed.parse().expect("seed"), nodes.parse().expect("nodes"), prefix.parse().expect("prefix"));
+                let cmds = world_cmds(seed, nodes);
+                let graph = gk::graph_id_of(&cmds[0]);
+                w.addrs = cmds.iter().map(|c| c.address()).collect();
+                w.a = Some(build_replica(&cmds, graph));
+                w.b = Some(build_replica(&cmds[..prefix.min(cmds.len())], graph));
+                w.b_trx = None;
+                w.resp_cache = PeerCache::new();
+                rec.line(line.clone(), if hex(graph.as_bytes()) == *g { "ok" } else { "graph-mismatch" });
+            }
+            ["gheads", h] => {
+                // what a transport does with the heads of a subscribe / hello: record them
+                let buf = unhex(h).expect("hex");
+                let cache = &mut w.resp_cache;
+                let a = &mut w.a;
+                let r = vh::catch(std::panic::AssertUnwindSafe(|| {
+                    let heads: Vec<Address> = match SyncIncoming::decode(&buf) {
+                        Err(e) => return show_err(&e),
+                        Ok(SyncIncoming::Subscribe(s)) => s.heads().iter().collect(),
+                        Ok(SyncIncoming::Hello(SyncHello::Hello(n))) => vec![n.head()],
+                        Ok(_) => vec![],
+                    };
+                    if let Some(a) = a {
+                        let graph = a.graph;
+                        let mut tb = TraversalBuffer::new();
+                        if let Ok(storage) = aranya_runtime::StorageProvider::get_storage(a.client.provider(), graph) {
+                            for h in heads {
+                                let _ = cache.add_command(storage, h, &mut tb);
+                            }
+                        }
+                    }
+                    "ok".to_string()
+                }));
+                let s = match r {
+                    Err(p) => {
+                        rec.panics.push(format!("PeerCache::add_command / decode panicked ({p}) on `{line}`"));
+                        "panic".to_string()
+                    }
+                    Ok(s) => s,
+                };
+                if w.resp_cache.heads().len() > PEER_HEAD_MAX {
+                    rec.oracle_fail(format!("`{line}`: peer cache holds {} heads", w.resp_cache.heads().len()));
+                }
+                for h in w.resp_cache.heads() {
+                    if !w.addrs.iter().any(|a| a.id == h.id && a.max_cut == h.max_cut) {
+                        rec.oracle_fail(format!("`{line}`: peer cache records {} which is not a command of the graph", show_addr(&h.address())));
+                    }
+                }
+                rec.count(&format!("gheads:{}", s.split(' ').last().unwrap_or("?")));
                 rec.line(line.clone(), s);
+            }
+            ["rq", "gpoll"] => {
+                let cache = PeerCache::new();
+                let mut tb = TraversalBuffer::new();
+                let rq = &mut w.rq;
+                let target = &mut w.buf;
+                let provider: &mut MemStorageProvider = match &mut w.b {
+                    Some(b) => b.client.provider(),
+                    None => &mut w.provider,
+                };
+                let r = vh::catch(std::panic::AssertUnwindSafe(|| rq.poll(target, provider, &cache.session_heads(), &mut tb)));
+                let s = match r {
+                    Err(p) => {
+                        rec.panics.push(format!("SyncRequester::poll panicked ({p})"));
+                        "panic".to_string()
+                    }
+                    Ok(Ok((n, _sent))) => {
+                        w.last_out = w.buf[..n].to_vec();
+                        match postcard::take_from_bytes::<MSyncType>(&w.last_out) {
+                            Ok((MSyncType::Poll { request: MReq::SyncRequest { session_id, commands, .. } }, _)) => {
+                                if session_id != w.rq_session {
+                                    rec.oracle_fail(format!("requester of session {} polls with session {session_id}", w.rq_session));
+                                }
+                                for c in &commands {
+                                    if !w.addrs.iter().any(|a| a == c) {
+                                        rec.oracle_fail(format!("requester sample contains {} which is not in its graph", show_addr(c)));
+                                    }
+                                }
+                                "ok request".to_string()
+                            }
+                            _ => format!("ok {}", hex(&w.last_out)),
+                        }
+                    }
+                    Ok(Err(e)) => show_err(&e),
+                };
+                rec.count(&format!("rq-gpoll:{}", if s.starts_with("ok") { "ok" } else { s.split(' ').last().unwrap_or("?") }));
+                rec.line(line.clone(), s);
+            }
+            ["rq", "gadd"] => {
+                // the consumer of `receive`'s output: ClientState::add_commands on the requester's replica
+                let cmds = std::mem::take(&mut w.last_cmds);
+                if let Some(b) = &mut w.b {
+                    let mut trx = w.b_trx.take().unwrap_or_else(|| b.transaction());
+                    let r = vh::catch(std::panic::AssertUnwindSafe(|| b.add(&mut trx, &cmds)));
+                    match r {
+                        Err(p) => rec.panics.push(format!(
+                            "add_commands panicked ({p}) on {} commands returned by SyncRequester::receive, first parent {}",
+                            cmds.len(),
+                            cmds.first().map_or("-".to_string(), |c| show_prior(&c.parent))
+                        )),
+                        Ok(Ok(n)) => {
+                            rec.count("gadd:ok");
+                            rec.count_n("gadd:added", n as u64);
+                            w.b_trx = Some(trx);
+                        }
+                        Ok(Err(e)) => {
+                            rec.count(&format!("gadd:{}", gk::err_name(&e).split(':').next().unwrap_or("?")));
+                            w.b_trx = Some(trx);
+                        }
+                    }
+                }
+                rec.line(line.clone(), "done");
+            }
+            ["rq", "gcommit"] => {
+                if let (Some(b), Some(trx)) = (&mut w.b, w.b_trx.take()) {
+                    match vh::catch(std::panic::AssertUnwindSafe(|| b.commit(trx))) {
+                        Err(p) => rec.panics.push(format!("commit panicked ({p}) after a sync session")),
+                        Ok(Ok(_)) => rec.count("gcommit:ok"),
+                        Ok(Err(e)) => rec.count(&format!("gcommit:{}", gk::err_name(&e).split(':').next().unwrap_or("?"))),
+                    }
+                }
+                rec.line(line.clone(), "done");
             }
             _ => panic!("bad request line {line}"),
         }
@@ -977,6 +1245,227 @@ fn gen_decode_case(r: &mut Rng, rec: &mut Recorder) -> Vec<String> {
     lines
 }
 
+// ------------------------------------------------------------------ sessions over real graphs
+
+/// a `commands` sample of a poll/subscribe: real addresses of the graph mixed with max_cut lies,
+/// unknown ids, duplicates
+fn garbage_sample(r: &mut Rng, addrs: &[Address], n: usize) -> Vec<Address> {
+    let mut v = vec![];
+    for _ in 0..n {
+        let real = *r.pick(addrs);
+        v.push(match r.below(8) {
+            0 | 1 | 2 => real,
+            3 => Address { id: real.id, max_cut: MaxCut::new(gk::mc(real.max_cut).wrapping_add(1)) },
+            4 => Address { id: real.id, max_cut: MaxCut::new(*r.pick(&[0u64, u64::MAX, u64::MAX - 1, 1 << 32, u64::MAX - 100])) },
+            5 => Address { id: gen_cmd_id(r), max_cut: real.max_cut },
+            6 => Address { id: gen_cmd_id(r), max_cut: MaxCut::new(gen_u64(r)) },
+            _ => Address { id: real.id, max_cut: MaxCut::new(gk::mc(real.max_cut).saturating_sub(1)) },
+        });
+    }
+    v
+}
+
+/// variants of a real response: other session, other index, truncated, flipped, replay material
+fn disturb_response(r: &mut Rng, rec: &mut Recorder, resp: &[u8]) -> Vec<Vec<u8>> {
+    let mut out = vec![];
+    if let Ok((m, rest)) = postcard::take_from_bytes::<MResp>(resp) {
+        let rest = rest.to_vec();
+        let mut with = |m: MResp| {
+            let mut b = pc(&m);
+            b.extend(&rest);
+            b
+        };
+        match (&m, r.below(6)) {
+            (MResp::SyncResponse { session_id, response_index, commands }, 0) => {
+                rec.count("gen:g-wrong-session");
+                out.push(with(MResp::SyncResponse { session_id: session_id.wrapping_add(1), response_index: *response_index, commands: commands.clone() }));
+            }
+            (MResp::SyncResponse { session_id, response_index, commands }, 1) => {
+                rec.count("gen:g-wrong-index");
+                let idx = *r.pick(&[response_index.wrapping_add(1), response_index.wrapping_add(7), u64::MAX]);
+                out.push(with(MResp::SyncResponse { session_id: *session_id, response_index: idx, commands: commands.clone() }));
+            }
+            (MResp::SyncResponse { session_id, response_index, commands }, 2) if !commands.is_empty() => {
+                rec.count("gen:g-length-lie");
+                let mut c = commands.clone();
+                let k = r.below(c.len() as u64) as usize;
+                c[k].length = c[k].length.wrapping_add(*r.pick(&[1u32, 50_000, u32::MAX]));
+                out.push(with(MResp::SyncResponse { session_id: *session_id, response_index: *response_index, commands: c }));
+            }
+            (MResp::SyncEnd { session_id, max_index, remaining }, _) => {
+                rec.count("gen:g-wrong-end");
+                out.push(with(MResp::SyncEnd { session_id: *session_id, max_index: max_index.wrapping_add(1), remaining: *remaining }));
+            }
+            _ => {}
+        }
+    }
+    for e in mutations(r, rec, resp, 1) {
+        out.push(e);
+    }
+    out
+}
+
+/// One interactive session between a real requester and a real responder that both have storage
+/// with (part of) the same graph; the messages they produce are piped to each other, interleaved
+/// with garbage, mutated and mis-sequenced ones.  Lines are executed as they are generated.
+fn graph_case(r: &mut Rng, rec: &mut Recorder) {
+    let mut w = World::new();
+    let seed = r.below(1 << 30);
+    let nodes = match r.below(12) {
+        0 => 2,
+        1 => 130, // more than COMMAND_RESPONSE_MAX commands: several responses
+        2 => 45,
+        _ => r.range(3, 14),
+    } as usize;
+    let cmds = world_cmds(seed, nodes);
+    let n = cmds.len();
+    let prefix = match r.below(5) {
+        0 => 0,
+        1 => 1,
+        2 => n,
+        _ => r.range(1, n as u64) as usize,
+    };
+    let graph = gk::graph_id_of(&cmds[0]);
+    let g = hex(graph.as_bytes());
+    let addrs: Vec<Address> = cmds.iter().map(|c| c.address()).collect();
+    rec.count_n("gen:g-nodes", n as u64);
+    exec_line(&mut w, rec, &format!("world {seed} {nodes} {prefix} {g}"));
+    let session = gen_u128(r);
+    exec_line(&mut w, rec, &format!("rq new {g} {session}"));
+    exec_line(&mut w, rec, "rq ready");
+    exec_line(&mut w, rec, "rq gpoll");
+    let request = w.last_out.clone();
+    exec_line(&mut w, rec, "rs new");
+    // ---- the poll the responder sees
+    let crafted = |r: &mut Rng, k: usize, sid: u128, gid: GraphId| {
+        pc(&MSyncType::Poll { request: MReq::SyncRequest { session_id: sid, graph_id: gid, max_bytes: gen_u64(r), commands: garbage_sample(r, &addrs, k) } })
+    };
+    match r.below(10) {
+        0..=3 => {
+            rec.count("gen:g-poll-real");
+            exec_line(&mut w, rec, &format!("rs recv {}", hex(&request)));
+        }
+        4..=6 => {
+            rec.count("gen:g-poll-garbage-sample");
+            let k = *r.pick(&[0usize, 1, 3, 10, 100]);
+            let b = crafted(r, k, session, graph);
+            exec_line(&mut w, rec, &format!("rs recv {}", hex(&b)));
+        }
+        7 => {
+            rec.count("gen:g-poll-mutated");
+            for e in mutations(r, rec, &request, 2) {
+                exec_line(&mut w, rec, &format!("rs recv {}", hex(&e)));
+                exec_line(&mut w, rec, "rs ready");
+                exec_line(&mut w, rec, "rs poll");
+            }
+            exec_line(&mut w, rec, &format!("rs recv {}", hex(&request)));
+        }
+        8 => {
+            rec.count("gen:g-poll-other-graph");
+            let other = gen_graph(r);
+            let b = crafted(r, 3, session, other);
+            exec_line(&mut w, rec, &format!("rs recv {}", hex(&b)));
+            exec_line(&mut w, rec, "rs poll");
+            exec_line(&mut w, rec, "rs poll");
+            exec_line(&mut w, rec, "rs new");
+            exec_line(&mut w, rec, &format!("rs recv {}", hex(&request)));
+        }
+        _ => {
+            rec.count("gen:g-poll-oversized-sample");
+            let b = crafted(r, 101 + r.below(30) as usize, session, graph);
+            exec_line(&mut w, rec, &format!("rs recv {}", hex(&b)));
+            exec_line(&mut w, rec, &format!("rs recv {}", hex(&request)));
+        }
+    }
+    // ---- the session
+    let mut prev: Option<Vec<u8>> = None;
+    let mut last_index: u64 = 0;
+    for _ in 0..12 {
+        exec_line(&mut w, rec, "rs ready");
+        if !w.rs.ready() {
+            break;
+        }
+        // responder-side disturbances between polls
+        match r.below(14) {
+            0 => {
+                rec.count("gen:g-mid-other-session-poll");
+                let b = crafted(r, 2, session.wrapping_add(3), graph);
+                exec_line(&mut w, rec, &format!("rs recv {}", hex(&b)));
+            }
+            1 => {
+                rec.count("gen:g-mid-new-request");
+                let b = crafted(r, 4, session, graph);
+                exec_line(&mut w, rec, &format!("rs recv {}", hex(&b)));
+            }
+            2 => {
+                rec.count("gen:g-mid-push");
+                exec_line(&mut w, rec, "rs push 0");
+                if !w.last_out.is_empty() && r.chance(1, 2) {
+                    let b = w.last_out.clone();
+                    exec_line(&mut w, rec, &format!("rq push {}", hex(&b)));
+                    if !w.last_cmds.is_empty() {
+                        exec_line(&mut w, rec, "rq gadd");
+                    }
+                }
+            }
+            3 => {
+                rec.count("gen:g-mid-heads");
+                let k = *r.pick(&[1usize, 5, 12, 100]);
+                let b = if r.chance(1, 2) {
+                    pc(&MSyncType::Subscribe { remain_open: gen_u64(r), max_bytes: gen_u64(r), commands: garbage_sample(r, &addrs, k), graph_id: graph })
+                } else {
+                    pc(&MSyncType::Hello(MHello::Hello { graph_id: graph, head: garbage_sample(r, &addrs, 1)[0] }))
+                };
+                exec_line(&mut w, rec, &format!("gheads {}", hex(&b)));
+            }
+            4 => {
+                rec.count("gen:g-mid-garbage-poll");
+                let k = r.below(40) as usize;
+                exec_line(&mut w, rec, &format!("rs recv {}", hex(&r.bytes(k))));
+            }
+            _ => {}
+        }
+        exec_line(&mut w, rec, "rs poll");
+        let resp = w.last_out.clone();
+        if let Ok((MResp::SyncResponse { response_index, .. }, _)) = postcard::take_from_bytes::<MResp>(&resp) {
+            last_index = response_index;
+        }
+        // requester-side disturbances before the genuine message
+        if r.chance(1, 2) {
+            for d in disturb_response(r, rec, &resp) {
+                exec_line(&mut w, rec, &format!("rq recv {}", hex(&d)));
+                if !w.last_cmds.is_empty() {
+                    exec_line(&mut w, rec, "rq gadd");
+                }
+            }
+        }
+        if let (Some(p), true) = (&prev, r.chance(1, 12)) {
+            rec.count("gen:g-replay-previous");
+            let p = p.clone();
+            exec_line(&mut w, rec, &format!("rq recv {}", hex(&p)));
+            exec_line(&mut w, rec, "rq ready");
+            exec_line(&mut w, rec, "rq gpoll");
+        }
+        rec.count("gen:g-genuine-response");
+        exec_line(&mut w, rec, &format!("rq recv {}", hex(&resp)));
+        if !w.last_cmds.is_empty() {
+            exec_line(&mut w, rec, "rq gadd");
+        }
+        prev = Some(resp);
+    }
+    exec_line(&mut w, rec, "rq gcommit");
+    exec_line(&mut w, rec, "rs ready");
+    exec_line(&mut w, rec, "rs poll");
+    // ---- make the requester's expected index observable: force Resync, then poll (SyncResume
+    // carries `next_message_index - 1`)
+    let (metas, data) = gen_metas(r, 1);
+    let probe = MResp::SyncResponse { session_id: session, response_index: last_index.wrapping_add(1000), commands: metas };
+    exec_line(&mut w, rec, &recv_line(&probe, &data));
+    exec_line(&mut w, rec, "rq ready");
+    exec_line(&mut w, rec, "rq gpoll");
+    exec_line(&mut w, rec, "rq ready");
+}
+
 fn main() {
     let args = Args::parse();
     vh::quiet_panics();
@@ -989,15 +1478,24 @@ fn main() {
         return;
     }
     let mut rng = Rng::new(args.seed);
-    let cases = args.budget(900, 12000);
+    let cases = args.budget(1000, 12000);
     for i in 0..cases {
-        let lines = match i % 3 {
+        if i % 4 == 3 {
+            rec.begin_case();
+            rec.count("case:graph-session");
+            graph_case(&mut rng, &mut rec);
+            let lines = rec.current_case_lines();
+            rec.count_n("lines", lines.len() as u64);
+            rec.nontrivial(fnv(&lines.join(";")));
+            continue;
+        }
+        let lines = match i % 4 {
             0 => gen_decode_case(&mut rng, &mut rec),
             1 => gen_requester_case(&mut rng, &mut rec),
             _ => gen_responder_case(&mut rng, &mut rec),
         };
         rec.begin_case();
-        rec.count(["case:decode", "case:requester", "case:responder"][i % 3]);
+        rec.count(["case:decode", "case:requester", "case:responder"][i % 4]);
         rec.count_n("lines", lines.len() as u64);
         if lines.len() >= 3 {
             rec.nontrivial(fnv(&lines.join(";")));
